@@ -1,8 +1,203 @@
-/- line-protocol handlers for C20 (stub: not built yet) -/
+/- line-protocol handlers for C20 (matrix subspaces: index tables, structure classes, certificates) -/
 import Driver.Loop
+import NumqiModel.MatrixSpace
+import NumqiModel.Generated.Thresholds20
 
 namespace Numqi.Driver.C20
+open Numqi Numqi.MatrixSpace
 
-def handle (_args : List String) : String := "bad-op"
+def natLists (l : List (List Nat)) : String := "|".intercalate (l.map natListStr)
+
+def tableStr (t : List (List Nat × Int)) : String :=
+  "|".intercalate (t.map fun e => natListStr e.1 ++ ":" ++ toString e.2)
+
+def ratStr (r : Rat) : String := s!"{r.num}/{r.den}"
+
+/-- exact value of a finite binary64 given as its bit pattern (decimal) -/
+def ratBits? (s : String) : Option Rat := do
+  let b ← s.toNat?
+  if b / 2^52 % 2048 = 2047 then none else some (ratOfFloatBits b)
+
+def parseBool? (s : String) : Option Bool :=
+  if s = "1" then some true else if s = "0" then some false else none
+
+def parseChar? (s : String) : Option SpaceChar :=
+  match s with
+  | "R_T" => some .R_T | "C_T" => some .C_T | "R" => some .R | "C" => some .C
+  | "C_H" => some .C_H | "R_cT" => some .R_cT | "R_c" => some .R_c | _ => none
+
+/-- matrix `k` of a flat row-major `(N, dA, dB)` integer list -/
+def mats3 (dA dB : Nat) (l : List Int) : Nat → Nat → Nat → Int :=
+  let a := l.toArray
+  fun k i j => a.getD ((k * dA + i) * dB + j) 0
+
+def mat2 (cols : Nat) (l : List Int) : Nat → Nat → Int :=
+  let a := l.toArray
+  fun i j => a.getD (i * cols + j) 0
+
+def flat2 (rows cols : Nat) (f : Nat → Nat → Int) : List Int :=
+  (List.range rows).flatMap fun i => (List.range cols).map fun j => f i j
+
+
+def qiStr (a : QI) : String := s!"{ratStr a.re},{ratStr a.im}"
+
+def handle (args : List String) : String :=
+  match args with
+  | ["aft", t] => Id.run do
+      let some t := parseNatList? t | return "bad-op"
+      if t.isEmpty then return "bad-op"
+      return tableStr (antisymFactorTable t)
+  | ["aftint", r] => Id.run do
+      let some r := r.toNat? | return "bad-op"
+      if r = 0 then return "bad-op"
+      return tableStr (antisymFactorTableInt r)
+  | ["asidx", d, r] => Id.run do
+      let some d := d.toNat? | return "bad-op"
+      let some r := r.toNat? | return "bad-op"
+      return natLists (antisymIndex d r)
+  | ["symidx", d, r] => Id.run do
+      let some d := d.toNat? | return "bad-op"
+      let some r := r.toNat? | return "bad-op"
+      return natLists (symIndex d r)
+  | ["symcnt", t] => Id.run do
+      let some t := parseNatList? t | return "bad-op"
+      return toString (counterFactorialProd t)
+  | ["perms", l] => Id.run do
+      let some l := parseNatList? l | return "bad-op"
+      return natLists (permsLex l)
+  | ["proj", dA, dB, idx, l] => Id.run do
+      let some dA := dA.toNat? | return "bad-op"
+      let some dB := dB.toNat? | return "bad-op"
+      let some idx := parseNatList? idx | return "bad-op"
+      let some l := parseIntList? l | return "bad-op"
+      if idx.isEmpty || dA = 0 || dB = 0 || l.length % (dA * dB) ≠ 0 then return "bad-op"
+      let N := l.length / (dA * dB)
+      if idx.any (· ≥ N) then return "bad-op"
+      return intListStr (antisymProjectScaled (mats3 dA dB l) dA dB idx)
+  | ["hidx", n, rank, k] => Id.run do
+      let some n := n.toNat? | return "bad-op"
+      let some rank := rank.toNat? | return "bad-op"
+      let some k := k.toNat? | return "bad-op"
+      if rank ≤ 1 || k = 0 then return "bad-op"
+      -- the INDEX lists handed to `tensor2d_project_to_antisym_basis`, in call order
+      let r := rank - 1
+      let subs := combos (List.range (r + k)) (r + 1)
+      return natLists ((hierarchyIndices n rank k).flatMap fun I => subs.map fun s => s.map fun x => I.getD x 0)
+  | ["classify", c, f, s, a, h] => Id.run do
+      let some c := parseBool? c | return "bad-op"
+      let some f := parseBool? f | return "bad-op"
+      let some s := parseBool? s | return "bad-op"
+      let some a := parseBool? a | return "bad-op"
+      let some h := parseBool? h | return "bad-op"
+      return match classify c f s a h with
+        | some x => x.toString
+        | none => "error:assert"
+  | ["coordlen", c, m, n] => Id.run do
+      let some c := parseChar? c | return "bad-op"
+      let some m := m.toNat? | return "bad-op"
+      let some n := n.toNat? | return "bad-op"
+      return toString (coordLen c m n)
+  | ["compl", c, k] => Id.run do
+      let some c := c.toNat? | return "bad-op"
+      let some k := k.toNat? | return "bad-op"
+      if k > c then return "bad-op"
+      return toString (complementCount c k)
+  | ["symsel", n, v] => Id.run do
+      let some n := n.toNat? | return "bad-op"
+      let some v := parseIntList? v | return "bad-op"
+      if v.length ≠ n * n then return "bad-op"
+      return intListStr (symSelect n v)
+  | ["symemb", n, x] => Id.run do
+      let some n := n.toNat? | return "bad-op"
+      let some x := parseIntList? x | return "bad-op"
+      if x.length ≠ nOff n + n then return "bad-op"
+      return intListStr (symEmbed n x)
+  | ["rctstack", n, vr, vi] => Id.run do
+      let some n := n.toNat? | return "bad-op"
+      let some vr := parseIntList? vr | return "bad-op"
+      let some vi := parseIntList? vi | return "bad-op"
+      if vr.length ≠ n * n || vi.length ≠ n * n then return "bad-op"
+      return intListStr (rcTStack n vr vi)
+  | ["rctunstack", n, x] => Id.run do
+      let some n := n.toNat? | return "bad-op"
+      let some x := parseIntList? x | return "bad-op"
+      if x.length ≠ 2 * (nOff n + n) then return "bad-op"
+      let (a, b) := rcTUnstack n x
+      return intListStr a ++ "|" ++ intListStr b
+  | ["rcflat", n1, n2, re, im] => Id.run do
+      let some n1 := n1.toNat? | return "bad-op"
+      let some n2 := n2.toNat? | return "bad-op"
+      let some re := parseIntList? re | return "bad-op"
+      let some im := parseIntList? im | return "bad-op"
+      if re.length ≠ n1 * n2 || im.length ≠ n1 * n2 then return "bad-op"
+      return intListStr (rcFlatten n1 n2 (mat2 n2 re) (mat2 n2 im))
+  | ["rcblock", n1, n2, x] => Id.run do
+      -- `x.reshape(N1, 2*N2)` → split → `np.block([[r,-i],[i,r]])`
+      let some n1 := n1.toNat? | return "bad-op"
+      let some n2 := n2.toNat? | return "bad-op"
+      let some x := parseIntList? x | return "bad-op"
+      if x.length ≠ 2 * n1 * n2 then return "bad-op"
+      let (re, im) := rcUnflatten n1 n2 x
+      return intListStr (flat2 (2 * n1) (2 * n2) (blockRealify n1 n2 re im))
+  | ["block", n1, n2, re, im] => Id.run do
+      let some n1 := n1.toNat? | return "bad-op"
+      let some n2 := n2.toNat? | return "bad-op"
+      let some re := parseIntList? re | return "bad-op"
+      let some im := parseIntList? im | return "bad-op"
+      if re.length ≠ n1 * n2 || im.length ≠ n1 * n2 then return "bad-op"
+      return intListStr (flat2 (2 * n1) (2 * n2) (blockRealify n1 n2 (mat2 n2 re) (mat2 n2 im)))
+  | ["ptb", dA, dB, l] => Id.run do
+      let some dA := dA.toNat? | return "bad-op"
+      let some dB := dB.toNat? | return "bad-op"
+      let some l := parseIntList? l | return "bad-op"
+      if l.length ≠ dA * dB * dA * dB then return "bad-op"
+      return intListStr (toFlat4 dA dB (ptB (ofFlat4 dA dB l)))
+  | ["projector", k, dA, dB, l] => Id.run do
+      let some k := k.toNat? | return "bad-op"
+      let some dA := dA.toNat? | return "bad-op"
+      let some dB := dB.toNat? | return "bad-op"
+      let some l := parseIntList? l | return "bad-op"
+      if l.length ≠ k * dA * dB then return "bad-op"
+      return intListStr (toFlat4 dA dB (projector k (mats3 dA dB l)))
+  | ["mixpt", dA, dB, p, l] => Id.run do
+      let some dA := dA.toNat? | return "bad-op"
+      let some dB := dB.toNat? | return "bad-op"
+      let some p := ratBits? p | return "bad-op"
+      let some l := parseIntList? l | return "bad-op"
+      if l.length ≠ dA * dB * dA * dB then return "bad-op"
+      let f : Nat → Nat → Nat → Nat → Rat := ofFlat4 dA dB (l.map fun (z : Int) => ((z : Rat)))
+      return ";".intercalate ((toFlat4 dA dB (mixPT p f)).map ratStr)
+  | ["herm", n, wr, wi, l] => Id.run do
+      let some n := n.toNat? | return "bad-op"
+      let some wr := ratBits? wr | return "bad-op"
+      let some wi := ratBits? wi | return "bad-op"
+      let some l := parseGIntList? l | return "bad-op"
+      if l.length ≠ n * n then return "bad-op"
+      let a := (l.map QI.ofGInt).toArray
+      let A : Nat → Nat → QI := fun i j => a.getD (i * n + j) 0
+      let H := hermPart (⟨wr, wi⟩ : QI) A
+      return ";".intercalate ((List.range n).flatMap fun i => (List.range n).map fun j => qiStr (H i j))
+  | ["cert", which, x, eps] => Id.run do
+      let some x := ratBits? x | return "bad-op"
+      let some eps := ratBits? eps | return "bad-op"
+      let b ← match which with
+        | "rankone" => pure (Generated.Thresholds20.rankOneCert x eps)
+        | "hierarchy" => pure (Generated.Thresholds20.hierarchyCert x eps)
+        | "abc" => pure (Generated.Thresholds20.abcCert x eps)
+        | "lu" => pure (luCertifies x eps)
+        | _ => return "bad-op"
+      return if b then "1" else "0"
+  | ["certdefault", which] =>
+      let f := fun (n d : Nat) (neg : Bool) => (if neg then "-" else "") ++ s!"{n}/{d}"
+      match which with
+      | "rankone" => f Generated.Thresholds20.rankOneCertEpsNum Generated.Thresholds20.rankOneCertEpsDen Generated.Thresholds20.rankOneCertEpsNeg
+      | "hierarchy" => f Generated.Thresholds20.hierarchyCertEpsNum Generated.Thresholds20.hierarchyCertEpsDen Generated.Thresholds20.hierarchyCertEpsNeg
+      | "abc" => f Generated.Thresholds20.abcCertEpsNum Generated.Thresholds20.abcCertEpsDen Generated.Thresholds20.abcCertEpsNeg
+      | _ => "bad-op"
+  | ["kept", eps, s] => Id.run do
+      let some eps := ratBits? eps | return "bad-op"
+      let some s := (if s = "-" then some [] else (s.splitOn ";").mapM ratBits?) | return "bad-op"
+      return toString (keptCount s eps)
+  | _ => "bad-op"
 
 end Numqi.Driver.C20
